@@ -483,8 +483,12 @@ def csv_case(ck, scratch):
     root = tempfile.mkdtemp(dir=scratch)
     case = {"op": "csv", "seed_note": "re-run the check with the recorded seed"}
     try:
-        t1 = FileSet(os.path.join(root, "T1/{year}-{month}-{day}_{hour}{minute}.csv"), read_args={"index_col": 0}, name="T1")
-        t2 = FileSet(os.path.join(root, "T2/{year}/{doy}_{hour}{minute}.txt.gz"), read_args={"index_col": 0}, name="T2")
+        # default handlers by suffix: csv / txt / asc -> CSV (compression suffix stripped first)
+        ext1, ext2 = rng.choice(["csv", "asc", "txt"]), rng.choice(["txt.gz", "asc.gz", "csv.bz2"])
+        t1 = FileSet(os.path.join(root, "T1/{year}-{month}-{day}_{hour}{minute}." + ext1), read_args={"index_col": 0}, name="T1")
+        t2 = FileSet(os.path.join(root, "T2/{year}/{doy}_{hour}{minute}." + ext2), read_args={"index_col": 0}, name="T2")
+        if type(t1.handler).__name__ != "CSV" or type(t2.handler).__name__ != "CSV":
+            ck.violation("default-handler", f"suffix {ext1} / {ext2} did not select the CSV handler", case)
         stored = {}
         base = dt.datetime(2019, rng.randint(1, 12), rng.randint(1, 28), rng.randint(0, 20))
         for i in range(rng.randint(1, 4)):
@@ -509,8 +513,8 @@ def csv_case(ck, scratch):
         for t, ds in stored.items():
             p = t2.get_filename(t)
             with open(p, "rb") as f:
-                if f.read(2) != b"\x1f\x8b":
-                    ck.violation("not-compressed", "converted .txt.gz file is not gzip", case)
+                if f.read(2) != (b"BZ" if ext2.endswith("bz2") else b"\x1f\x8b"):
+                    ck.violation("not-compressed", f"converted .{ext2} file is not compressed", case)
             d = ds_equal(ds, t2[t])
             if d:
                 ck.violation("csv-roundtrip", f"CSV table differs after move+convert+gzip: {d}", case)
@@ -521,7 +525,7 @@ def csv_case(ck, scratch):
         t2.delete(worker_type="thread")
         if sum(len(f) for _, _, f in os.walk(os.path.join(root, "T2"))) != 0:
             ck.violation("delete", "delete left CSV files", case)
-        ck.case(key=("csv", len(stored), copy, str(base)), kind="csv", sample={"tables": len(stored), "copy": copy})
+        ck.case(key=("csv", len(stored), copy, str(base), ext1, ext2), kind="csv", sample={"tables": len(stored), "copy": copy, "suffixes": [ext1, ext2]})
     except Exception as e:      # noqa
         ck.violation("csv-raised", f"CSV scenario raised {type(e).__name__}: {e}", case)
     finally:
@@ -537,8 +541,12 @@ def netcdf_child(root, seed):
     rng = random.Random(seed)
     problems = []
     info = {}
-    n1 = FileSet(os.path.join(root, "N1/{year}/{month}/{day}/{hour}{minute}{second}.nc"), name="N1")
-    n2 = FileSet(os.path.join(root, "N2/{year}/{doy}/{hour}{minute}{second}.nc.gz"), name="N2")
+    e1, e2 = rng.choice(["nc", "h5"]), rng.choice(["nc.gz", "h5.gz"])         # default handlers: nc / h5 -> NetCDF4
+    info["suffixes"] = [e1, e2]
+    n1 = FileSet(os.path.join(root, "N1/{year}/{month}/{day}/{hour}{minute}{second}." + e1), name="N1")
+    n2 = FileSet(os.path.join(root, "N2/{year}/{doy}/{hour}{minute}{second}." + e2), name="N2")
+    if type(n1.handler).__name__ != "NetCDF4" or type(n2.handler).__name__ != "NetCDF4":
+        problems.append(["default-handler", f"suffix {e1} / {e2} did not select the NetCDF4 handler"])
     stored = {}
     base = dt.datetime(2018, rng.randint(1, 12), rng.randint(1, 28), rng.randint(0, 20))
     for i in range(rng.randint(1, 3)):
@@ -649,6 +657,8 @@ ANCHORS = [("typhon/files/fileset.py", "FileSet.__setitem__"), ("typhon/files/fi
            ("typhon/files/fileset.py", "FileSet.move"), ("typhon/files/fileset.py", "FileSet._move_single_file"),
            ("typhon/files/fileset.py", "FileSet.delete"), ("typhon/files/fileset.py", "FileSet._delete_single_file"),
            ("typhon/files/fileset.py", "FileSet._dry_delete"), ("typhon/files/fileset.py", "FileSet.make_dirs"),
+           ("typhon/files/fileset.py", "FileSet._configure_pool_and_worker_args"), ("typhon/files/fileset.py", "FileSet._call_map_function"),
+           ("typhon/files/fileset.py", "FileSet.map"), ("typhon/files/fileset.py", "FileSet.get_filename"),
            ("typhon/files/handlers/common.py", "NetCDF4.read"), ("typhon/files/handlers/common.py", "NetCDF4.write"),
            ("typhon/files/handlers/common.py", "CSV.read"), ("typhon/files/handlers/common.py", "CSV.write")]
 
@@ -664,17 +674,23 @@ def make_check():
                  "handlers and codecs are parameters (contracts read(write d) = d, dec(enc c) = c); NetCDF4 / CSV fidelity is "
                  "checked by the oracle only",
                  "OS file operations, fsspec LocalFileSystem copy/move, concurrent.futures pools: modelled sequentially, not verified"],
-        assumptions=["target names of a move are pairwise different and differ from the selected sources (different templates / directories)",
-                     "selections are by period with bounds that do not coincide with file boundaries (exact boundary semantics is C01)",
-                     "files of one fileset do not cross midnight when the template has no end date"])
+        assumptions=["target names of a move are pairwise different and differ from the selected sources (moves whose targets would "
+                     "collide, or whose target template cannot carry the period, are not generated)",
+                     "period bounds do not coincide with file boundaries; temporal placeholders of long files are in the file name, not in "
+                     "directory names (boundary semantics and directory pruning of find are C01)",
+                     "files of a fileset whose template has no end date do not cross midnight",
+                     "placeholder values used in black-list filters are prefix-free (re.match semantics of the black list)"])
 
 
 def main():
     ck = make_check()
     ck.rule = ("random histories (3..25 operations) of write / overwrite / find+read / move / copy / convert (True or a function) / "
-               "delete / dry-run over three filesets with different templates (directory layout, doy vs month/day, added .gz suffix "
-               "with post_reader, write_args) using a JSON FileHandler; thread pools and (fewer) process pools; CSV tables incl. "
-               "NaN/strings with move+convert to .txt.gz; NetCDF datasets (f32/f64/i32/i64/datetime/scale-offset) in a forked child. "
+               "delete / dry-run over 3-4 of six filesets with different templates (directory layout, doy vs month/day, {doy}/{end_doy} "
+               "with periods crossing New Year of leap and non-leap years, start-only, day-only (coarser), added .gz suffix with "
+               "post_reader) using a JSON FileHandler whose output shows the write/read arguments (fileset-level and per-call); "
+               "selections by period, by files= (empty, subset, reversed) and by filters= (value, list, black list); FileSet or string "
+               "target; a target with an unfillable placeholder; thread pools and (fewer) process pools; CSV tables (csv/txt/asc, "
+               "gz/bz2) and NetCDF datasets (nc/h5) with move+convert. "
                "non-trivial = history with >= 3 operations containing a move/copy of at least one file")
     ck.anchors(ANCHORS)
     ck.build()
